@@ -2,6 +2,7 @@ import RxnModel.Proofs.Pipeline
 import RxnModel.Proofs.PipelineInv
 import RxnModel.Proofs.PipelineReplay
 import RxnModel.Proofs.PipelineCross
+import RxnModel.Generated.Facts
 /-!
 # C01 — end-to-end exactly-once state semantics of the pipeline under failures, restarts and repartitioning
 
@@ -217,9 +218,13 @@ which is a failure (`kill` / `restart`) at whose end the key's owner holds exact
 for the key: whatever failures, restarts and repartitionings happened, every key's state is a state of a
 failure-free execution over the same input. (The witness run contains no live redeploy either.)
 
-**Per key is the strongest form that holds with rescaling.** The witness run depends on `k`. The stronger
-statement with ONE failure-free run (on the final worker count `s.n`) that reproduces the logs of *all* keys
-simultaneously is **false** as soon as the worker count changes: on fewer workers, several splits of one runner
+**Why per key (with the witness deployed on the final worker count `s.n`).** The witness run depends on `k`. The
+stronger statement with ONE failure-free run *on the final worker count `s.n`* that reproduces the logs of *all* keys
+simultaneously is **false** as soon as the worker count changes (the same logs may still be those of a failure-free
+run on another worker count - in `crossRun` they are the logs of the failure-free run on 2 workers; what is refuted
+is only the form whose witness runs on `s.n`). Not stated and not proved here: the all-keys form for runs whose
+restarts never change the worker count (a published consistent cut is then a reachable failure-free state), and
+equality of the cursors in the witness. The reason for the refutation: on fewer workers, several splits of one runner
 feeding several keys of one operator share a single FIFO channel, which fixes one arrival order for all of these
 keys, whereas before the rescaling the keys sat behind different channels and could each see the splits in a
 different relative order. `crossRun` below (2 workers → 1 worker, no live redeploy, checkpoint published, final state
@@ -415,5 +420,18 @@ theorem failure_free_all_keys_counterexample :
     rw [e1, hl1] at k1
     rw [e2, hl2] at k2
     exact single_witness_counterexample ⟨as', s', obs', hh, hf, hr, k1, k2⟩
+
+/-- **The code has the shape three atomic model steps assume** (regenerated from /repo on every run by
+`tools/gofacts/facts_c01.go`; a lost shape makes this fail to build):
+* `restart` restores operator state and source cursors from ONE published checkpoint: `Job.start` (with the `Job` methods it
+  calls) calls `CurrentCheckpoint()` exactly once, before `Deploy`;
+* `opCkpt` is snapshot-of-everything-delivered then acknowledgement: `handleCheckpointBarrier` holds the operator's write
+  lock and flushes the pending handler batch, then takes the DKV checkpoint, then acknowledges;
+* `barrier` is cut, acknowledgement, barrier behind everything read: the read loop's barrier case calls `createCheckpoint`
+  (reader `Checkpoint()` then `OnSourceRunnerCheckpointComplete`) before it sends on the output stream, and nobody else
+  takes the cut. -/
+theorem model_steps_match_code_shape :
+    Facts.c01StartReadsCheckpointOnce = 1 ∧ Facts.c01OperatorCheckpointOrder = 1 ∧
+    Facts.c01RunnerCutBeforeBarrier = 1 := by decide
 
 end Rxn.C01
